@@ -87,7 +87,7 @@ func c01Check(o *Oracle, c boolCase) (ok bool, detail string, resp string) {
 
 func init() {
 	stages["c01-search"] = func(ctx *Ctx, cnt func(q, t int) int, replay string) Result {
-		return searchC01(ctx, cnt(3000, 200000))
+		return searchC01(ctx, cnt(12000, 200000))
 	}
 	replays["c01-search"] = func(ctx *Ctx, o *Oracle, raw json.RawMessage) *Violation {
 		var c boolCase
